@@ -20,11 +20,26 @@ from __future__ import annotations
 
 import re
 
-TOKEN_RE = re.compile(r"zq(\d{4})x")
+# three renderings of a token, chosen by the id range (the abstract document only ever sees the id):
+#   1..2999     zq0007x                       a plain word
+#   3000..4999  zq3007é zy3007x               one run of two words, the first ending in a non-ASCII letter (the
+#                                              blank inside the run is text: gluing the halves destroys the token)
+#   5000..9999  9007199254005007              a 16-digit number (digits only -- also a run of 16 hex digits)
+TOKEN_RE = re.compile(r"zq(\d{4})x|zq(\d{4})\u00e9\s+zy\2x|9007199254(\d{6})")
+TOKEN_RE_NOSPACE = re.compile(r"zq(\d{4})x|zq(\d{4})\u00e9zy\2x|9007199254(\d{6})")     # after deleting all white space
+ACCENT_BASE, NUMERIC_BASE = 3000, 5000
 
 
 def word(i: int) -> str:
+    if i >= NUMERIC_BASE:
+        return f"9007199254{i:06d}"
+    if i >= ACCENT_BASE:
+        return f"zq{i:04d}\u00e9 zy{i:04d}x"
     return f"zq{i:04d}x"
+
+
+def _tok_id(m) -> int:
+    return int(m.group(1) or m.group(2) or m.group(3))
 
 
 def project_text(text: str) -> dict:
@@ -38,7 +53,7 @@ def project_text(text: str) -> dict:
         if ids:
             sep.append(1 if any(c.isspace() for c in gap) else 0)
         residue.append(gap)
-        ids.append(int(m.group(1)))
+        ids.append(_tok_id(m))
         last = m.end()
     residue.append(text[last:])
     return {"ids": ids, "sep": sep, "residue": residue}
@@ -78,6 +93,10 @@ def constructs(doc) -> set:
     def inl(xs, ctx):
         for i in xs:
             out.add(i[0])
+            if i[0] == "r" and i[1] >= NUMERIC_BASE:
+                out.add("r.num")
+            elif i[0] == "r" and i[1] >= ACCENT_BASE:
+                out.add("r.acc")
             if i[0] in ("a", "ins", "del", "isdt"):
                 inl(i[1], ctx)
 
